@@ -64,4 +64,21 @@ CHECKS = {
                 "(<= 33 voxels per axis); chunk files are recognised by the "
                 "documented names only.",
     },
+    "C11": {
+        "engine": "E-INPUT", "level": "exploration",
+        "technique": "bounded exhaustive enumeration of dtype pairs x modes "
+                     "x layouts x decision-point value alphabet vs exact "
+                     "rational reference",
+        "text": "All 10x5 (input, output) type pairs, both buffer-reuse "
+                "modes and six memory layouts (C, Fortran, strided view, "
+                "read-only, reversed, empty) are run on an alphabet built "
+                "around every decision point (type limits +-1/+-0.5, ties, "
+                "2^24, 2^53, 2^63, 2^64, float32 max and beyond, lattice "
+                "neighbours), every value alone and all together, and "
+                "compared element by element with the nearest-even "
+                "saturating reference computed in Fractions; input bytes "
+                "(and the base of strided views) are compared before/after.",
+        "note": "Finite values only; the alphabet is a lattice around the "
+                "code's decision points, not all floats.",
+    },
 }
